@@ -586,6 +586,8 @@ def stream_boson(ctx):
         quad = k % 3 == 2
         n_modes = rng.randint(1, 2)
         trunc = rng.randint(1, 4)
+        if k % 10 == 9:
+            n_modes, trunc = rng.choice([(3, 3), (2, 5), (3, 2)])     # dimensions 27, 25, 8
         hbar = rng.choice([0.5, 2.0, 8.0])
         C = of.QuadOperator if quad else of.BosonOperator
         op = C()
@@ -1340,8 +1342,285 @@ def stream_hardening(ctx):
     return st
 
 
+# ---------------------------------------------------------------- registers beyond 8 qubits
+
+def be_index(n, s):
+    """big-endian matrix index of the basis state with mask s (bit j = qubit j)"""
+    r = 0
+    for j in range(n):
+        if (s >> j) & 1:
+            r |= 1 << (n - 1 - j)
+    return r
+
+
+def transpose_jop(cls, jop):
+    """the operator whose matrix is the TRANSPOSE (no conjugation): Pauli strings pick up (-1)^{#Y};
+    ladder products are reversed with creation <-> annihilation (their matrices are real)"""
+    out = []
+    for t, c in jop:
+        if cls == 'qubit':
+            sign = -1 if sum(1 for _, a in t if a == 2) % 2 else 1
+            out.append([t, [sign * c[0], c[1], sign * c[2], c[3]]])
+        else:
+            out.append([[[i, 1 - a] for i, a in reversed(t)], c])
+    return out
+
+
+def stream_large(ctx):
+    import numpy
+    import scipy.sparse
+    of = ctx.of
+    from openfermion.linalg import sparse_tools as stl
+    from openfermion.linalg import linear_qubit_operator as lq
+    Q, F = of.QubitOperator, of.FermionOperator
+    st = Stream('large-registers', 'every matrix / vector producer on 9, 10 and 12 qubits (diagonal and matvec also on 17), operators '
+                'acting on low, middle and high qubits and operators padded to n_qubits beyond 8: sparse matrices are compared '
+                'on sampled columns and rows (non-zero pattern and values, exactly) with the Spec image of the sampled basis '
+                'states; diagonals with a direct per-index parity; matvec / parallel matvec on sparse and dense vectors with '
+                'the Spec images (exactly) and the Model; tensors of 9 / 10 orbitals; boson registers of dimension 25 / 27; '
+                'distinct = distinct (function, operator, n)')
+    rng = rng_for(ctx.seed, 'c06-large')
+    reps = budget(ctx.tier, 1, 5)
+    if ctx.drift:
+        reps = max(reps, 2)
+    spec_reqs = []     # (request, callback)
+
+    def spec_image(cls, jop, s, cb):
+        spec_reqs.append(({'op': 'spec.apply', 'alg': cls, 'expr': ['leaf', jop], 'state': [s]}, cb))
+
+    def img_dict(n, ans):
+        d = {}
+        for e, c in ans:
+            v = from_gq(c)
+            if v != (0, 0):
+                d[be_index(n, e[0] if e else 0)] = v
+        return d
+
+    def check_sparse(name, cls, jop, n, M, case):
+        if M.shape != (2 ** n, 2 ** n):
+            st.violate('%s: shape %s is not 2^n = %d' % (name, M.shape, 2 ** n), case, None)
+            return
+        Mc = M.tocsc()
+        Mr = M.tocsr()
+        states = {0, 2 ** n - 1, 1, 1 << (n - 1)} | {rng.randrange(2 ** n) for _ in range(10)}
+        for s in sorted(states):
+            col = Mc.getcol(be_index(n, s)).tocoo()
+            got = {int(r): fr(v) for r, v in zip(col.row, col.data) if v != 0}
+
+            def cb(ans, got=got, s=s):
+                st.count('oracle:spec-column')
+                want = img_dict(n, ans)
+                if want != got:
+                    st.violate('%s: column of basis state %d differs from the Spec image' % (name, s), case,
+                               {'got': sorted((k, str(v)) for k, v in got.items())[:6],
+                                'want': sorted((k, str(v)) for k, v in want.items())[:6]})
+            spec_image(cls, jop, s, cb)
+            row = Mr.getrow(be_index(n, s)).tocoo()
+            gotr = {int(c): fr(v) for c, v in zip(row.col, row.data) if v != 0}
+
+            def cbr(ans, gotr=gotr, s=s):
+                st.count('oracle:spec-row')
+                want = img_dict(n, ans)
+                if want != gotr:
+                    st.violate('%s: row of basis state %d differs from the Spec (transposed operator)' % (name, s), case,
+                               {'got': sorted((k, str(v)) for k, v in gotr.items())[:6],
+                                'want': sorted((k, str(v)) for k, v in want.items())[:6]})
+            spec_image(cls, transpose_jop(cls, jop), s, cbr)
+
+    def qubit_op_on(n, cnt, n_terms, z_only=False):
+        """terms on qubits < cnt; always touches qubit 0, the middle and qubit cnt-1"""
+        op = Q()
+        forced = [[0], [cnt - 1], [0, min(2, cnt - 1)], [cnt // 2]]
+        for k in range(n_terms):
+            qs = sorted(set(forced[k])) if k < len(forced) else sorted(rng.sample(range(cnt), rng.randint(1, min(4, cnt))))
+            t = tuple((q, 'Z' if (z_only or rng.random() < 0.5) else rng.choice('XY')) for q in qs)
+            if t not in op.terms:
+                op.terms[t] = dyadic(rng, max_num=4, max_pow=2)
+        return op
+
+    for rep in range(reps):
+        for n in (9, 10, 12, 17):
+            # ---------------- diagonal: direct per-index parity
+            for cnt in sorted({n, max(3, n - 9), rng.randint(2, n)}):
+                op = qubit_op_on(n, cnt, rng.randint(2, 5), z_only=(rng.random() < 0.6))
+                jop = enc_op('qubit', op.terms)
+                case = {'fn': 'get_linear_qubit_operator_diagonal', 'a': jop, 'n_qubits': n, 'count_qubits': cnt}
+                st.case(case)
+                st.count('diagonal:n=%d' % n)
+                kind, dg = safe(stl.get_linear_qubit_operator_diagonal, op, n)
+                if kind == 'err':
+                    st.violate('get_linear_qubit_operator_diagonal raised', case, dg)
+                    continue
+                idx = numpy.arange(2 ** n, dtype=numpy.int64)
+                want = numpy.zeros(2 ** n, dtype=complex)
+                for t, c in op.terms.items():
+                    if all(a == 'Z' for _, a in t):
+                        sign = numpy.ones(2 ** n)
+                        for q, _ in t:
+                            sign = sign * (1 - 2 * ((idx >> (n - 1 - q)) & 1))
+                        want = want + complex(c) * sign
+                if len(dg) != 2 ** n or not numpy.array_equal(numpy.asarray(dg, dtype=complex), want):
+                    bad = [int(i) for i in numpy.nonzero(numpy.asarray(dg, dtype=complex) != want)[0][:5]] if len(dg) == 2 ** n else []
+                    st.violate('diagonal != (-1)^(parity of the Z qubits) summed over the Z-only terms', case,
+                               {'first_bad_indices': bad})
+                if n <= 10:
+                    m = ctx.driver.one({'op': 'c06.diagonal', 'a': jop, 'n': n})
+                    if 'error' in m or j_vec(m['diag']) != [fr(v) for v in dg]:
+                        st.disagree('diagonal', case, 'implementation', 'model')
+            # ---------------- matvec (sparse vector exactly vs Spec; dense vector vs the Model for n <= 10)
+            op = qubit_op_on(n, rng.choice([n, n - 1, max(2, n - 8)]), rng.randint(2, 4))
+            jop = enc_op('qubit', op.terms)
+            case = {'fn': 'LinearQubitOperator', 'a': jop, 'n_qubits': n}
+            st.case(case)
+            st.count('matvec:n=%d' % n)
+            x = numpy.zeros(2 ** n, dtype=complex)
+            support = sorted({0, 2 ** n - 1, 1 << (n - 1)} | {rng.randrange(2 ** n) for _ in range(4)})
+            for s_ in support:
+                x[be_index(n, s_)] = complex(rng.randint(1, 3), rng.randint(-2, 2)) / 2
+            kind, y = safe(lambda: of.LinearQubitOperator(op, n) * x)
+            if kind == 'err':
+                st.violate('matvec raised', case, y)
+            else:
+                acc = {}
+                pending = {'left': len(support)}
+
+                def cbm(ans, s_=None, acc=acc, pending=pending, y=y, case=case, n=n, x=x):
+                    xs = fr(x[be_index(n, s_)])
+                    for i, v in img_dict(n, ans).items():
+                        a = acc.get(i, (Fraction(0), Fraction(0)))
+                        acc[i] = (a[0] + xs[0] * v[0] - xs[1] * v[1], a[1] + xs[0] * v[1] + xs[1] * v[0])
+                    pending['left'] -= 1
+                    if pending['left'] == 0:
+                        st.count('oracle:spec-matvec')
+                        got = {int(i): fr(y[i]) for i in numpy.nonzero(y)[0]}
+                        want = {i: v for i, v in acc.items() if v != (0, 0)}
+                        if got != want:
+                            st.violate('LinearQubitOperator * x != (matrix of the operator) x', case,
+                                       {'got': sorted((k, str(v)) for k, v in got.items())[:6],
+                                        'want': sorted((k, str(v)) for k, v in want.items())[:6]})
+                for s_ in support:
+                    spec_image('qubit', jop, s_, lambda ans, s_=s_, cbm=cbm: cbm(ans, s_))
+                if n <= 12:
+                    class Opt(lq.LinearQubitOperatorOptions):
+                        def get_pool(self, num=None):
+                            return FakePool(list(range(num or 0))[::-1])
+                    kind, yp = safe(lambda: of.ParallelLinearQubitOperator(op, n, Opt(processes=3)) * x)
+                    st.count('parallel:n=%d' % n)
+                    if kind == 'err' or not numpy.array_equal(yp, y):
+                        st.violate('ParallelLinearQubitOperator * x != LinearQubitOperator * x', case, str(yp)[:100])
+                if n <= 10:
+                    m = ctx.driver.one({'op': 'c06.matvec', 'a': jop, 'x': vec_j(x)})
+                    if j_vec(m) != [fr(v) for v in y]:
+                        st.disagree('matvec', case, 'implementation', 'model')
+            if n > 12:
+                continue
+            # ---------------- sparse matrices on sampled columns and rows
+            cnt = rng.choice([n, n, max(2, n - 8)])
+            op = qubit_op_on(n, cnt, rng.randint(2, 4))
+            jop = enc_op('qubit', op.terms)
+            case = {'fn': 'get_sparse_operator', 'cls': 'qubit', 'a': jop, 'n_qubits': n, 'count_qubits': cnt}
+            st.case(case)
+            st.count('sparse:qubit:n=%d' % n)
+            kind, M = safe(of.get_sparse_operator, op, n)
+            if kind == 'err':
+                st.violate('get_sparse_operator raised', case, M)
+            else:
+                check_sparse('get_sparse_operator(QubitOperator)', 'qubit', jop, n, M, case)
+            # fermions: modes at both ends (long parity strings), padded registers
+            fop = F()
+            hi = rng.choice([n - 1, n - 1, max(1, n - 9)])
+            for t in [((hi, 1), (0, 0)), ((0, 1), (0, 0)), ((hi, 1), (hi // 2, 1), (1 if hi > 1 else 0, 0), (0, 0))]:
+                if len({i for i, _ in t}) == len(t) or len(t) == 2:
+                    fop += F(t, dyadic(rng, max_num=3, max_pow=1))
+            jf = enc_op('fermion', fop.terms)
+            case = {'fn': 'jordan_wigner_sparse', 'cls': 'fermion', 'a': jf, 'n_qubits': n}
+            st.case(case)
+            st.count('sparse:fermion:n=%d' % n)
+            kind, M = safe(stl.jordan_wigner_sparse, fop, n)
+            if kind == 'err':
+                st.violate('jordan_wigner_sparse raised', case, M)
+            else:
+                check_sparse('jordan_wigner_sparse', 'fermion', jf, n, M, case)
+            j = rng.choice([0, n - 1, n - 9 if n > 9 else 0, rng.randrange(n)])
+            ty = rng.randint(0, 1)
+            case = {'fn': 'jordan_wigner_ladder_sparse', 'n': n, 'j': j, 'type': ty}
+            st.case(case)
+            st.count('ladder:n=%d' % n)
+            kind, M = safe(stl.jordan_wigner_ladder_sparse, n, j, ty)
+            if kind == 'err':
+                st.violate('jordan_wigner_ladder_sparse raised', case, M)
+            else:
+                check_sparse('jordan_wigner_ladder_sparse', 'fermion', [[[[j, ty]], ONE]], n, M, case)
+            # tensors with 9 / 10 orbitals (n_qubits None or padded)
+            if n <= 10:
+                size = n - rng.choice([0, 1])
+                one = numpy.zeros((size, size), dtype=complex)
+                two = numpy.zeros((size,) * 4, dtype=complex)
+                for _ in range(4):
+                    one[rng.randrange(size), rng.randrange(size)] = complex(rng.randint(-3, 3), rng.randint(-2, 2)) / 2
+                one[size - 1, 0] = 0.5 - 1j
+                for _ in range(3):
+                    two[tuple(rng.randrange(size) for _ in range(4))] = complex(rng.randint(-3, 3), rng.randint(-2, 2)) / 2
+                const = 1.5 - 0.5j
+                opt = of.InteractionOperator(const, one, two) if rng.random() < 0.5 else \
+                    of.PolynomialTensor({(): const, (1, 0): one, (1, 1, 0, 0): two})
+                jt = tensor_fermion_jop(const, one, two)
+                n_arg = None if size == n and rng.random() < 0.5 else n
+                case = {'fn': 'get_sparse_operator', 'cls': type(opt).__name__, 'size': size, 'a': jt, 'n_qubits': n_arg}
+                st.case(case)
+                st.count('sparse:tensor:n=%d' % n)
+                kind, M = safe(of.get_sparse_operator, opt, n_arg)
+                if kind == 'err':
+                    st.violate('get_sparse_operator(tensor) raised', case, M)
+                else:
+                    check_sparse('get_sparse_operator(tensor)', 'fermion', jt, n, M, case)
+        # ---------------- expectation on 10 qubits (sparse state), eigenspectrum on 9 qubits
+        n = 10
+        op = qubit_op_on(n, n, 3)
+        op = op + of.hermitian_conjugated(op)
+        jop = enc_op('qubit', op.terms)
+        support = sorted({0, 2 ** n - 1} | {rng.randrange(2 ** n) for _ in range(3)})
+        psi = numpy.zeros(2 ** n, dtype=complex)
+        for s_ in support:
+            psi[be_index(n, s_)] = complex(rng.randint(1, 3), rng.randint(-2, 2)) / 2
+        case = {'fn': 'expectation', 'a': jop, 'n_qubits': n, 'support': support}
+        st.case(case)
+        st.count('expectation:n=10')
+        kind, got = safe(lambda: of.expectation(of.get_sparse_operator(op, n), psi))
+        imgs = ctx.driver.run([{'op': 'spec.apply', 'alg': 'qubit', 'expr': ['leaf', jop], 'state': [s_]} for s_ in support])
+        want = 0
+        for s_, ans in zip(support, imgs):
+            for i, v in img_dict(n, ans).items():
+                want += numpy.conj(psi[i]) * complex(float(v[0]), float(v[1])) * psi[be_index(n, s_)]
+        st.float_comparisons += 1
+        if kind == 'err' or not abs(complex(got) - want) <= 1e-9 * max(1.0, abs(want)):
+            st.violate('expectation on 10 qubits != psi^dagger M psi', case, {'got': str(got), 'want': str(want)})
+        n = 9
+        op = qubit_op_on(n, n, 3, z_only=True) + Q(((0, 'X'), (8, 'X')), 0.5) + Q(((4, 'Y'),), 0.25)
+        op = op + of.hermitian_conjugated(op)
+        jop = enc_op('qubit', op.terms)
+        case = {'fn': 'eigenspectrum', 'a': jop, 'n_qubits': n}
+        st.case(case)
+        st.count('eigenspectrum:n=9')
+        cols = ctx.driver.run([{'op': 'spec.apply', 'alg': 'qubit', 'expr': ['leaf', jop], 'state': [s_]} for s_ in range(2 ** n)])
+        D = numpy.zeros((2 ** n, 2 ** n), dtype=complex)
+        for s_, ans in enumerate(cols):
+            for i, v in img_dict(n, ans).items():
+                D[i, be_index(n, s_)] = complex(float(v[0]), float(v[1]))
+        kind, spec = safe(of.eigenspectrum, op)
+        st.float_comparisons += 2 ** n
+        if kind == 'err' or len(spec) != 2 ** n or \
+                not float(numpy.max(numpy.abs(numpy.sort(numpy.real(spec)) - numpy.linalg.eigvalsh(D)))) <= 1e-9:
+            st.violate('eigenspectrum on 9 qubits != eigenvalues of the matrix of the operator', case, str(spec)[:100])
+    if spec_reqs:
+        answers = ctx.driver.run([r for r, _ in spec_reqs])
+        for (_, cb), a in zip(spec_reqs, answers):
+            cb(a)
+    return st
+
+
 def run(ctx):
-    return [stream_sparse(ctx), stream_linear(ctx), stream_boson(ctx), stream_numeric(ctx), stream_hardening(ctx)]
+    return [stream_sparse(ctx), stream_linear(ctx), stream_boson(ctx), stream_numeric(ctx), stream_hardening(ctx), stream_large(ctx)]
 
 
 def replay(ctx, payload):
